@@ -208,6 +208,11 @@ func golubKahanSVD(inSitu *InSitu, epsilon float64) (Matrix, Matrix, Matrix, err
 
   H, U, V, _ := householderBidiagonalization.Run(A, computeU, computeV, &inSitu.HouseholderBidiagonalization)
   B := H.Slice(0,n,0,n)
+  // the bidiagonalization accumulates U from the right (A = U B V^T), whereas
+  // the rotations below are applied to U^T from the left
+  if U != nil {
+    U = U.T()
+  }
 
   for p, q := 0, 0; q < n; {
     verifhook.Tick("svd.golubKahan")
@@ -235,6 +240,23 @@ func golubKahanSVD(inSitu *InSitu, epsilon float64) (Matrix, Matrix, Matrix, err
         u := U
         v := V
         golubKahanSVDstep(b, u, v, p, inSitu, epsilon)
+      }
+    }
+  }
+  // singular values are non-negative: flip the sign of a negative diagonal
+  // entry together with the corresponding right (or left) singular vector
+  for i := 0; i < n; i++ {
+    if b := B.At(i,i); b.GetFloat64() < 0.0 {
+      b.Neg(b)
+      if V != nil {
+        for j := 0; j < n; j++ {
+          v := V.At(j,i); v.Neg(v)
+        }
+      } else if U != nil {
+        m, _ := U.Dims()
+        for j := 0; j < m; j++ {
+          u := U.At(i,j); u.Neg(u)
+        }
       }
     }
   }
